@@ -402,3 +402,14 @@ func (w *World) findNonNilGlobals() {
 		}
 	}
 }
+
+// invokeModSetByName: mod-set of all implementers of method name of interface type t.
+func (w *World) invokeModSetByName(t types.Type, name string) *modSet {
+	it := types.Unalias(t).Underlying().(*types.Interface)
+	for i := 0; i < it.NumMethods(); i++ {
+		if it.Method(i).Name() == name {
+			return w.invokeModSet(t, it.Method(i))
+		}
+	}
+	return &modSet{fams: map[string]bool{}}
+}
